@@ -151,6 +151,12 @@ theorem stats_Record_refines (tag ns dropped : Int) (fuel : Nat) :
   · subst h3; simp [minigo, stats_Record, recordState]
   simp [minigo, stats_Record, recordState, h0, h1, h2, h3]
 
+/-- **the regenerated `metrics.Result`**: the label an outcome is recorded under — failed iff the handle was failed -/
+theorem metrics_Result_refines (failed : Bool) (fuel : Nat) :
+    observe (runFn noExt fuel metrics_Result (State.ofVars [("arg0", .bool failed), ("FailedResult", .int 1), ("SuccessResult", .int 0)])) [] =
+      some ([.int (if failed then 1 else 0)], []) := by
+  cases failed <;> simp [minigo, metrics_Result]
+
 /-- **the regenerated `Stats.Snapshot` / `Total`**: the success figures come from the success accumulator, the failure
 figures from the failure accumulator, the dropped count from the dropped counter -/
 theorem stats_Snapshot_refines (ext : Ext Rat) (period : Int) (dropped : Int) (l : List (Val Rat)) (fuel : Nat) :
